@@ -81,37 +81,26 @@ def main():
     env = dict(os.environ)
     env['VERIF_REPO'] = pat
     env.setdefault('VERIF_SEED', '1')
-    keep = tempfile.mkdtemp(prefix='vf-keep-')
-    for d in ('evidence', 'replays'):
-      if os.path.isdir(os.path.join(VERIF, d)):
-        shutil.copytree(os.path.join(VERIF, d), os.path.join(keep, d))
-    try:
-      for c in checks:
-        cmd = [PY, '-m', 'vf.run', c, '--tier', 'quick']
-        if a.examples:
-          cmd += ['--examples', a.examples]
-        rc, out = sh(cmd, cwd=VERIF, env=env, timeout=1800)
-        key = [l.strip() for l in out.splitlines() if l.strip().startswith('key=')]
-        detail = [l.strip() for l in out.splitlines() if l.strip().startswith('detail=')]
-        verdicts[c] = {'exit': rc, 'key': key[0] if key else None, 'detail': detail[0][:300] if detail else None}
-        print('check %s: exit %d %s' % (c, rc, key[0] if key else out.strip().splitlines()[-1][:200]))
-    finally:
-      for d in ('evidence', 'replays'):
-        shutil.rmtree(os.path.join(VERIF, d), ignore_errors=True)
-        if os.path.isdir(os.path.join(keep, d)):
-          shutil.copytree(os.path.join(keep, d), os.path.join(VERIF, d))
-      shutil.rmtree(keep, ignore_errors=True)
+    env['VERIF_OUT'] = os.path.join(scratch, 'out')      # evidence / replays of these runs never touch /verif
+    for c in checks:
+      cmd = [PY, '-m', 'vf.run', c, '--tier', 'quick']
+      if a.examples:
+        cmd += ['--examples', a.examples]
+      rc, out = sh(cmd, cwd=VERIF, env=env, timeout=1800)
+      key = [l.strip() for l in out.splitlines() if l.strip().startswith('key=')]
+      detail = [l.strip() for l in out.splitlines() if l.strip().startswith('detail=')]
+      verdicts[c] = {'exit': rc, 'key': key[0] if key else None, 'detail': detail[0][:300] if detail else None}
+      print('check %s: exit %d %s' % (c, rc, key[0] if key else out.strip().splitlines()[-1][:200]))
     meta['checks'] = verdicts
     meta['caught_by'] = sorted(c for c, v in verdicts.items() if v['exit'] == 1)
     meta['needs'] = a.needs
     if confirmed:
       dst = os.path.join(VERIF, 'seeded', a.name)
       os.makedirs(dst, exist_ok=True)
-      shutil.copy(patch, os.path.join(dst, 'patch.diff'))
-      shutil.copy(demo, os.path.join(dst, 'demo.py'))
       rd = os.path.join(a.src, 'README.md')
-      if os.path.exists(rd):
-        shutil.copy(rd, os.path.join(dst, 'README.md'))
+      for src_, name_ in ((patch, 'patch.diff'), (demo, 'demo.py'), (rd, 'README.md')):
+        if os.path.exists(src_) and os.path.abspath(src_) != os.path.join(dst, name_):
+          shutil.copy(src_, os.path.join(dst, name_))
       with open(os.path.join(dst, 'meta.json'), 'w') as f:
         json.dump(meta, f, indent=1, sort_keys=True)
         f.write('\n')
